@@ -178,7 +178,7 @@ class C12(PropertyCheck):
                       ('nesting', 'let x = ' + '()->{' * d + '1' + '}' * d + ';'), ('nesting', 'fn f(a: int ?= ' + '((b: int ?= ' * min(d, 64) + '1' + ')->{b})()' * min(d, 64) + ')->int{a}'),
                       ('nesting', 'let x = ' + '(' * d + ';'), ('nesting', 'let x = ' + 'f(' * d + '1' + ')' * d + ';'), ('nesting', 'let x = ' + '-' * d + '1;'), ('nesting', 'let x = 1' + '+1' * d * 10 + ';')]
         # long erroneous declarations with non-ASCII text at every byte offset around 80
-        for pad in range(60, 100, 1 if tier == 'thorough' else 3):
+        for pad in list(range(60, 100, 1 if tier == 'thorough' else 3)) + list(range(140, 180, 1 if tier == 'thorough' else 3)) + [250, 400]:
             filler = 'a' * pad
             for ch in ['é', '👋', 'ä']:
                 texts.append(('non-ascii-error', f'let v: int = "{filler}{ch * 12}";'))
@@ -197,6 +197,18 @@ class C12(PropertyCheck):
             texts.append(('no-overload', 'fn a(x: int)->int{x}\nlet b = a == a;'))
             texts.append(('no-overload', 'struct Z(n: int)\nlet b = [Z(1)].to_str();'))
             texts.append(('no-overload', 'struct Z(n: int)\nlet h = hash(Z(1)); let c = cmp(Z(1), 2); let j = Z(1) < "a";'))
+        # error messages that render types with several generic parameters, special identifiers, turbofish placeholders, several pending forward declarations
+        texts += [('typed-error', 'struct P6<A,B,C,D,E,F>(a: A, b: B, c: C, d: D, e: E, f: F)\nlet p = P6(1, "s", 1.5, true, [1], (1, 2));\nlet q: int = p;'),
+                  ('typed-error', 'struct P2<A,B>(a: A, b: B)\nfn f(x: P2<int, str>) -> int { 1 }\nlet r = f(P2("s", 1));'),
+                  ('typed-error', 'union E3<A,B,C>(a: A, b: B, c: C)\nlet e: E3<int, str, bool> = E3::a("x");'),
+                  ('typed-error', 'struct P2<A,B>(a: A, b: B)\nlet l = [P2(1, "a"), P2("a", 1)];'),
+                  ('identifier', 'let item18446744073709551616 = 1;\nfn c0() -> int { item18446744073709551616 }'),
+                  ('identifier', 'let item99999999999999999999999999999999999 = 1;\nfn c0() -> int { item99999999999999999999999999999999999 + 1 }'),
+                  ('identifier', 'let t = (1, 2);\nfn c0() -> int { t::item18446744073709551616 }'), ('identifier', 'let t = (1, 2);\nfn c0() -> int { t::item1 }'),
+                  ('turbofish', 'fn foo(x: int) -> int { x }\nlet z = foo{$,$}(1);'), ('turbofish', 'fn foo(x: int) -> int { x }\nlet z = foo{$}();'), ('turbofish', 'fn foo(x: int) -> int { x }\nlet z = foo{$};'),
+                  ('turbofish', 'fn foo(x: int, y: int ?= 2) -> int { x }\nlet z = foo{$,$,$}(1, 2);'), ('turbofish', 'fn foo<T>(x: T) -> T { x }\nlet z = foo{$}(1);\nfn c0() -> int { z }'),
+                  ('forward', 'fn outer() -> int {\nforward fn a(x: int) -> int;\nforward fn b(x: int) -> int;\nfn inner() -> int { a(1) + b(2) }\ninner()\n}'),
+                  ('forward', 'fn outer() -> int {\nforward fn b(x: int) -> int;\nforward fn a(x: int) -> int;\nforward fn c(x: str) -> int;\nfn inner() -> int { c("x") + a(1) + b(2) }\nfn a(x: int) -> int { x }\ninner()\n}')] * 3
         for _ in range(20 if tier == 'quick' else 200):
             decls, obs = gen_program(rng, nobs=3, err_rate=0.05, depth=3)
             texts.append(('generated', '\n'.join(d.xr() for d in decls)))
